@@ -363,6 +363,52 @@ def oracle_c05(kind, n, c, label, op, modes, before, after):
     return out
 
 
+def oracle_c05_register(kind, n, c, b0, obs0):
+    """mode deletion leaves exactly the reduced state of the other modes; a new mode arrives in vacuum, uncorrelated,
+    and changes nothing else (differential on implementation data).  Returns [(what, message, pseudo-event)]."""
+    out = []
+    fock = family(kind) == "fock"
+    for m in range(n) if n >= 2 else ():
+        rest = [k for k in range(n) if k != m]
+        b = copy.deepcopy(b0)
+        try:
+            with warnings.catch_warnings():
+                warnings.simplefilter("ignore")
+                b.del_mode([m])
+                after = Obs(b, kind, n - 1, c)
+        except Exception as e:  # noqa: BLE001
+            out.append(("del-raises", f"del_mode([{m}]) raised {type(e).__name__}: {e}", ("Del", (m,))))
+            continue
+        if fock:
+            d = _maxabs(after.rho - _red_fock(obs0.rho, rest, n, c))
+        else:
+            mb, Vb = _red_gauss(obs0.mu, obs0.V, rest, n)
+            d = max(_maxabs(after.mu - mb), _maxabs(after.V - Vb))
+        if d > 1e-10:
+            out.append(("del-rest", f"after deleting mode {m} the remaining modes differ from their reduced state by {d:.3g}", ("Del", (m,))))
+    if not fock or c ** (2 * (n + 1)) <= 2_000_000:
+        b = copy.deepcopy(b0)
+        try:
+            with warnings.catch_warnings():
+                warnings.simplefilter("ignore")
+                b.add_mode(1)
+                after = Obs(b, kind, n + 1, c)
+        except Exception as e:  # noqa: BLE001
+            out.append(("new-raises", f"add_mode(1) raised {type(e).__name__}: {e}", ("New", ())))
+            return out
+        if fock:
+            vac = np.zeros((c, c))
+            vac[0, 0] = 1.0
+            d = _maxabs(after.rho - np.kron(obs0.rho, vac))
+        else:
+            ix = ph.idx(list(range(n)), n + 1)
+            nx_ = ph.idx([n], n + 1)
+            d = max(_maxabs(after.mu[ix] - obs0.mu), _maxabs(after.V[np.ix_(ix, ix)] - obs0.V), _maxabs(after.mu[nx_]), _maxabs(after.V[np.ix_(nx_, nx_)] - np.eye(2)), _maxabs(after.V[np.ix_(ix, nx_)]))
+        if d > 1e-10:
+            out.append(("new-mode", f"after adding a mode the state differs from (old state) x vacuum by {d:.3g}", ("New", ())))
+    return out
+
+
 def _nbar_gauss(mu, V, n):
     return [float((V[m, m] + V[m + n, m + n] + mu[m] ** 2 + mu[m + n] ** 2) / 4 - 0.5) for m in range(n)]
 
@@ -456,6 +502,11 @@ def expand(task):
         except Exception as e:  # a state that was reachable before must be rebuildable
             res.violation(f"{prop}|rebuild-error|{kind}", f"replaying {hist} raised {e!r}", {"kind": kind, "n": n, "c": c, "hist": list(hist)})
             continue
+        if prop == "C05":
+            for what, msg, pev in oracle_c05_register(kind, n, c, b0, obs0):
+                res.violation(f"C05|{what}|{kind}", f"{msg} (state after {[l + str(list(m)) for l, m in hist]}, {kind}, n={n}, c={c})", {"kind": kind, "n": n, "c": c, "hist": [[l, list(m)] for l, m in hist], "event": [pev[0], list(pev[1])]})
+            res.n += n + 1
+            res.stats[f"register_events:{kind}:n{n}"] += n + 1
         for lab, modes in evs:
             res.n += 1
             res.stats[f"transitions:{kind}:n{n}"] += 1
@@ -569,6 +620,8 @@ def replay_case(prop, case):
     res = Res()
     b0, ref0 = rebuild(kind, n, c, hist)
     obs0 = Obs(b0, kind, n, c)
+    if lab in ("Del", "New"):
+        return [(f"C05|{what}|{kind}", msg) for what, msg, pev in oracle_c05_register(kind, n, c, b0, obs0) if (pev[0], tuple(pev[1])) == (lab, modes)]
     op = make_op(lab, c)
     b = copy.deepcopy(b0)
     try:
